@@ -322,6 +322,16 @@ def bezier_elevate(ctrl, t):
     return out
 
 
+def fsqrt(q):
+    """Square root of a non-negative Fraction as a float, without overflow/underflow of the radicand."""
+    import math
+    q = Fr(q)
+    if q == 0:
+        return 0.0
+    e = (q.numerator.bit_length() - q.denominator.bit_length()) // 2 * 2
+    return math.sqrt(float(q / F(2) ** e)) * 2.0 ** (e // 2)
+
+
 # ------------------------------------------------------------------ exact linear algebra
 def mat_det(A):
     """Bareiss / fraction elimination determinant."""
